@@ -647,10 +647,11 @@ fn build_lists<'a>(
 
 fn list_item<'a>(s: &'a SimpleTerm<'a>, d: &'a PrettifiableDataset) -> Option<&'a SimpleTerm<'a>> {
     let mut ret = None;
+    let mut has_rest = false;
     for q in d.quads_matching([s], Any, Any, Any) {
         let q = q.unwrap();
-        if rdf::rest == q.p() {
-            continue;
+        if rdf::rest == q.p() && !has_rest {
+            has_rest = true;
         } else if rdf::first == q.p() && ret.is_none() {
             ret = Some(q.o());
         } else {
